@@ -872,6 +872,8 @@ pub struct GenCfg {
     pub uniform_shape: bool,
     /// leaf data in {-1,0,1}
     pub unit_values: bool,
+    /// largest element count of a node
+    pub max_numel: usize,
 }
 
 impl GenCfg {
@@ -891,6 +893,7 @@ impl GenCfg {
             all_custom: false,
             uniform_shape: false,
             unit_values: false,
+            max_numel: 200,
         }
     }
     pub fn smooth() -> GenCfg {
@@ -1239,7 +1242,7 @@ pub fn try_add_op(r: &mut Rng, cfg: &GenCfg, st: &mut GenState) {
         None => return,
     };
     let mag = t.max_abs();
-    if !mag.is_finite() || mag > 1e5 || numel(&t.dims) > 200 {
+    if !mag.is_finite() || mag > 1e5 || numel(&t.dims) > cfg.max_numel {
         return;
     }
     if cfg.exact_only {
